@@ -279,6 +279,27 @@ func (o *c20Oracle) Finish(out *RunOutcome, res *Result) {
 			}
 			o.hit("reach.full-year-oscillation")
 		}
+		// the phase shift is configured in days of the calendar year: the level is a function of the day of the year and
+		// repeats from year to year (history clause: no drift however many year changes the run has been through)
+		var ds []int
+		for d := range o.levels {
+			ds = append(ds, d)
+		}
+		sort.Ints(ds)
+		firstAt := map[int]int{}
+		for _, d := range ds {
+			doy := Day(d).YearDay()
+			f, ok := firstAt[doy]
+			if !ok {
+				firstAt[doy] = d
+				continue
+			}
+			o.hit("reach.day-of-year-revisited")
+			if a, b := o.levels[f], o.levels[d]; math.Abs(a-b) > 1e-9 {
+				o.violate("minmax", "level-of-a-calendar-day-drifts-from-year-to-year", d, fmt.Sprintf("%s: level %.9g dm, on the same day of the year in %d it was %.9g (given levels %.6g / %.6g, phase %d)", Day(d).ISO(), b, Day(f).Year(), a, lo, hi, o.w.Cfg.GWPhase), nil)
+				break
+			}
+		}
 	}
 	o.flush(res)
 }
